@@ -78,14 +78,20 @@ def rot2Ok (n : Nat) (f1 f2 : List Float) (cols : List (List Float)) : Bool :=
     m.length == 2 &&
     (List.zipWith (fun a b => (List.zipWith (fun x y => decide ((x - y).abs ≤ 1e-9)) a b).all id) m cols).all id
 
-/-- `[r1, ball (n values), r2]` per iteration -/
+/-- `pow(u, 1.0 / n)` -/
+def rootF (n : Nat) (u : Float) : Float := Float.pow u (1.0 / n.toFloat)
+
+/-- RAW draws `[r1, dir (n values: uniformNormalVector), u (uniformReal(0,1)), r2]` per iteration; the ball point is
+computed by the model's `uniformInBall` (dimension = length of `dir` = the PHS dimension) -/
 def drawsGo (n : Nat) : Nat → List Float → List (Draw Float Unit)
   | 0, _ => []
   | fuel + 1, l =>
-    if l.length < n + 2 then []
+    if l.length < n + 3 then []
     else
-      { baseInf := [], baseRest := (), r1 := l.headD 0, ball := (l.drop 1).take n, r2 := (l.drop (n + 1)).headD 0,
-        rot := () } :: drawsGo n fuel (l.drop (n + 2))
+      let dir := (l.drop 1).take n
+      let u := (l.drop (n + 1)).headD 0
+      { baseInf := [], baseRest := (), r1 := l.headD 0, ball := uniformInBall rootF 1.0 dir u,
+        r2 := (l.drop (n + 2)).headD 0, rot := () } :: drawsGo n fuel (l.drop (n + 3))
 
 def drawsOf (n : Nat) (l : List Float) : List (Draw Float Unit) := drawsGo n l.length l
 
@@ -325,7 +331,7 @@ def step (st : DSt) (ts : List String) : DSt × String :=
       if st.kind != "rv" || st.skind != "direct" then (st, "bad-op") else
       let s' := s.update c
       if s'.useBoundsBranch then ({ st with smp := some s' }, "sup bounds-branch")
-      else if vals.length != s.numIters * (st.n + 2) then (st, "bad-op")
+      else if vals.length != s.numIters * (st.n + 3) then (st, "bad-op")
       else
         let ds := drawsOf st.n vals
         let r := s.sample2 (rvInBounds st.lo st.hi) true c ds (st.cur, ())
@@ -339,7 +345,7 @@ def step (st : DSt) (ts : List String) : DSt × String :=
       if st.kind != "rv" || st.skind != "direct" then (st, "bad-op") else
       let s' := s.update c
       if s'.useBoundsBranch then ({ st with smp := some s' }, "sup3 bounds-branch")
-      else if vals.length != s.numIters * (st.n + 2) then (st, "bad-op")
+      else if vals.length != s.numIters * (st.n + 3) then (st, "bad-op")
       else
         let ds := drawsOf st.n vals
         let r := s.sample3 (rvInBounds st.lo st.hi) true mc c ds (st.cur, ())
